@@ -65,12 +65,22 @@ impl PoolMetrics {
 
     /// Get average response time
     pub async fn average_response_time(&self) -> Option<Duration> {
-        let times = self.response_times.read().await;
-        if times.is_empty() {
+        // nanoseconds in u128: a sum of Durations panics on overflow
+        let (total, count) = {
+            let times = self.response_times.read().await;
+            (
+                times.iter().map(Duration::as_nanos).sum::<u128>(),
+                times.len() as u128,
+            )
+        };
+        if count == 0 {
             None
         } else {
-            let total: Duration = times.iter().sum();
-            Some(total / times.len() as u32)
+            let avg = total / count;
+            Some(Duration::new(
+                (avg / 1_000_000_000) as u64,
+                (avg % 1_000_000_000) as u32,
+            ))
         }
     }
 
@@ -93,7 +103,7 @@ impl PoolMetrics {
     pub fn success_rate(&self) -> f64 {
         let successes = self.total_successful_requests.load(Ordering::Relaxed);
         let failures = self.total_failed_requests.load(Ordering::Relaxed);
-        let total = successes + failures;
+        let total = u128::from(successes) + u128::from(failures);
 
         if total == 0 {
             1.0
@@ -109,8 +119,9 @@ impl PoolMetrics {
 
     /// Get total request count
     pub fn total_requests(&self) -> u64 {
-        self.total_successful_requests.load(Ordering::Relaxed)
-            + self.total_failed_requests.load(Ordering::Relaxed)
+        self.total_successful_requests
+            .load(Ordering::Relaxed)
+            .saturating_add(self.total_failed_requests.load(Ordering::Relaxed))
     }
 }
 
@@ -215,7 +226,12 @@ impl StreamingMetrics {
 
     /// Record downloaded bytes and update bandwidth
     pub fn record_download(&self, bytes: u64, duration: Duration) {
-        self.bytes_downloaded.fetch_add(bytes, Ordering::Relaxed);
+        // saturating: the counter never wraps
+        let _ = self
+            .bytes_downloaded
+            .fetch_update(Ordering::Relaxed, Ordering::Relaxed, |v| {
+                Some(v.saturating_add(bytes))
+            });
 
         // bytes per second over the real duration (sub-second downloads are the normal case)
         let nanos = duration.as_nanos();
@@ -458,8 +474,10 @@ impl PrometheusExporter {
         );
 
         // Circuit breakers is calculated as activated - recovered
-        let active_breakers = metrics.circuit_breakers_activated.load(Ordering::Relaxed)
-            - metrics.circuit_breakers_recovered.load(Ordering::Relaxed);
+        let active_breakers = metrics
+            .circuit_breakers_activated
+            .load(Ordering::Relaxed)
+            .saturating_sub(metrics.circuit_breakers_recovered.load(Ordering::Relaxed));
         self.pool_circuit_breakers.set(active_breakers as i64);
     }
 
